@@ -178,7 +178,7 @@ func sizeJob(tagPrefix string, format string, n int, rep repertoire, enc fileEnc
 	}
 	ov = append(ov, extra...)
 	tags := []string{tagPrefix + format, fmt.Sprintf("records:%d", n), "file-encoding:" + enc.name, "read-encoding:" + readOpt, "repertoire:" + rep.name}
-	return &job{Group: "size", Tags: tags, Files: []fileSpec{{Name: name, Data: data}}, Opts: ov, Stmts: []string{strings.ReplaceAll(query, "%f", "`"+name+"`")}}
+	return &job{Group: "size", Tags: tags, Files: []fileSpec{{Name: name, Data: data, Gen: sizeGenCmd(format, n, rep, cols, units, lineBreak, enc.name)}}, Opts: ov, Stmts: []string{strings.ReplaceAll(query, "%f", "`"+name+"`")}}
 }
 
 func sizeJobs(g *hc.Gen, generated int, first bool) []*job {
@@ -247,4 +247,35 @@ func sizeJobs(g *hc.Gen, generated int, first bool) []*job {
 		push(j)
 	}
 	return jobs
+}
+
+// sizeGenCmd: a python3 one-liner that writes the same file (for reproducers; checked against sizeText/encodeAs
+// by TestSizeGenCmd when the generator is changed).
+func sizeGenCmd(format string, n int, rep repertoire, cols, units int, lineBreak, enc string) string {
+	codec, bom := map[string][2]string{
+		"UTF-8": {"utf-8", ""}, "UTF-8 BOM": {"utf-8", "\\xef\\xbb\\xbf"}, "SJIS": {"cp932", ""},
+		"UTF-16LE BOM": {"utf-16-le", "\\xff\\xfe"}, "UTF-16BE BOM": {"utf-16-be", "\\xfe\\xff"}, "UTF-16LE no BOM": {"utf-16-le", ""},
+	}[enc][0], ""
+	bom = map[string]string{"UTF-8 BOM": `\xef\xbb\xbf`, "UTF-16LE BOM": `\xff\xfe`, "UTF-16BE BOM": `\xfe\xff`}[enc]
+	lb := strings.NewReplacer("\n", `\n`, "\r", `\r`).Replace(lineBreak)
+	py := fmt.Sprintf(`import sys
+U=%s;N=%d;C=%d;W=%d;F=%q;LB="%s";H="abcdefgh"
+def cell(r,k): return "%%05d"%%r if k==0 else "".join(U[(r+k+u)%%len(U)] for u in range(W))
+S={"CSV":",","TSV":"\t","FIXED":"   "};sep=S.get(F,"")
+out=[]
+if F in S: out.append(sep.join(H[k%%8]+(" "*((5 if k==0 else W)-1) if F=="FIXED" else "") for k in range(C)))
+for r in range(1,N+1):
+    if F in S: out.append(sep.join(cell(r,k) for k in range(C)))
+    elif F=="LTSV": out.append("\t".join(H[k%%8]+":"+cell(r,k) for k in range(C)))
+    else: out.append("{"+",".join("\""+H[k%%8]+"\":\""+cell(r,k)+"\"" for k in range(C))+"}")
+sys.stdout.buffer.write(b"%s"+"".join(x+LB for x in out).encode(%q))`, pyList(rep.units), n, cols, units, format, lb, bom, codec)
+	return "python3 -c " + shq(py)
+}
+
+func pyList(xs []string) string {
+	q := make([]string, len(xs))
+	for i, x := range xs {
+		q[i] = `"` + x + `"`
+	}
+	return "[" + strings.Join(q, ",") + "]"
 }
